@@ -82,6 +82,24 @@ CHECKS = {
              "weighted_accuracy rescaling/all-ones/all-zeros and split invariance (fine, off-grid cuts) of chord.evaluate, the "
              "six frame-based segment scores and hierarchy.lmeasure are judged by Trace_Rel.",
         ref="4/C12"),
+    "C06": dict(
+        technique="TLA+ swap-symmetry invariants model-checked on matching and contingency definitions; recorded "
+                  "f(a,b)/f(b,a) outcome pairs judged by a TLA+ trace spec against Relations!SwapSpec",
+        text="TLC checks on every enumerated input that the maximum-matching size is symmetric under exchange of the sides "
+             "(MC_C05_events) and that the contingency table transposes, pairwise P/R exchange and Rand/ARI are symmetric "
+             "(MC_C16). For the 19 functions of Relations!SwapSpec the harness calls f(a,b) and f(b,a) on seeded inputs of "
+             "UNEQUAL sizes incl. exact-threshold distances; Trace_Rel decides from the table which positions exchange / stay, "
+             "bit-identical or to 1e-9.",
+        ref="4/C06, App. C"),
+    "C07": dict(
+        technique="TLA+ monotonicity invariants over all ordered tolerance pairs model-checked on the definitions; recorded "
+                  "tighter/looser outcome pairs judged by a TLA+ trace spec against Relations!MonoSpec",
+        text="MC_C07 checks for every lattice input and every ordered pair t1<=t2 of each tolerance (event window, chroma "
+             "window, note onset/pitch/offset-ratio/min-tolerance, strict) that feasible pairs only grow and the maximum "
+             "matching never shrinks; MC_C05_notes checks the nesting of criteria. On the code, every function of "
+             "Relations!MonoSpec is evaluated under all ordered pairs of a per-parameter lattice (incl. exact distances and "
+             "decimal near-threshold times), strict vs non-strict, and 20 documented nested pairs; Trace_Rel judges.",
+        ref="4/C07, App. C"),
 }
 
 PENDING = "check not built yet (build in progress; see DESIGN.md section 10)"
